@@ -314,7 +314,7 @@ Theorem kept_exactly s F q fr v s' m :
   peek_memo s' (loc_of q) = Some m /\
   (forall h, In h (mids m) -> live s' h).
 Proof.
-  intros I Hq H. destruct (finish_oinv skind sfams sfams_skind n q v fr s F s' m I Hq H) as [I' Em].
+  intros I Hq H. destruct (finish_oinv skind sfams sfams_skind n q _ v fr s F s' m I Hq H) as [I' Em].
   split; [exact Em|].
   assert (Hp : peek_memo s' (loc_of q) = Some m).
   { unfold finish_exec in H. destruct (drain (fr_ids fr)) as [active stale].
